@@ -91,6 +91,7 @@ func planFor(tier string) plan {
 			{"mid@118", 4, "base"},
 			{"matured@119", 4, "base"},
 			{"spread@119", 3, "narrow"},
+			{"clshare@118", 4, "narrow"},
 		}
 	} else {
 		p.Runs = []run{
@@ -98,6 +99,7 @@ func planFor(tier string) plan {
 			{"mid@118", 3, "base"},
 			{"matured@119", 3, "base"},
 			{"spread@119", 2, "narrow"},
+			{"clshare@118", 3, "narrow"},
 		}
 	}
 	return p
@@ -129,6 +131,17 @@ func seedDef(name string) (int64, []Op) {
 			{K: "lock", A: "B", Denom: DenomX, Dur: 2 * hour, Amt: 70},
 			{K: "unlockall", A: "A"},
 			{K: "tick", Dt: hour},
+		}
+	case "clshare@118":
+		// two locks of concentrated-liquidity share tokens (locked full-range positions of A and B; the shares are minted
+		// into the lock and burnt at pay-out), A's 59 min into unlocking, and an ordinary lock beside them: the next
+		// boundaries mature A's lock (block 119 ends, no sweep) and pay it out (block 120 ends)
+		return 118, []Op{
+			{K: "cllock", A: "A", Dur: hour, Amt: 1000000},
+			{K: "cllock", A: "B", Dur: 2 * hour, Amt: 2500000},
+			{K: "lock", A: "B", Denom: DenomX, Dur: hour, Amt: 70},
+			{K: "unlock", ID: 1},
+			{K: "tick", Dt: 59 * min},
 		}
 	case "spread@119":
 		// thirteen locks of one denom with thirteen distinct durations (1 h, 1 h 1 min, ... 1 h 12 min; owners
